@@ -76,12 +76,9 @@ def imports_of(m: pf.Module) -> Dict[str, str]:
     return d
 
 
-def module_const(m: pf.Module, name: str) -> ast.expr:
-    """The unique module-level binding of `name` (no rebinding, no `global name`)."""
-    hit = _mc_cache.get((id(m), name))
-    if hit is not None:
-        return hit
-    vals: List[ast.expr] = []
+def module_bindings(m: pf.Module, name: str) -> List[ast.AST]:
+    """Every module-level binding of `name`: the value expression of a plain assignment, else the binding statement."""
+    vals: List[ast.AST] = []
 
     def scan(stmts):
         for st in stmts:
@@ -89,11 +86,11 @@ def module_const(m: pf.Module, name: str) -> ast.expr:
                 for t in st.targets:
                     for x in ast.walk(t):
                         if isinstance(x, ast.Name) and x.id == name:
-                            vals.append(st.value if isinstance(t, ast.Name) else st)  # type: ignore[arg-type]
+                            vals.append(st.value if isinstance(t, ast.Name) else st)
             elif isinstance(st, ast.AnnAssign) and isinstance(st.target, ast.Name) and st.target.id == name:
-                vals.append(st.value if st.value is not None else st)  # type: ignore[arg-type]
+                vals.append(st.value if st.value is not None else st)
             elif isinstance(st, ast.AugAssign) and isinstance(st.target, ast.Name) and st.target.id == name:
-                vals.append(st)  # type: ignore[arg-type]
+                vals.append(st)
             elif isinstance(st, (ast.If, ast.Try, ast.With, ast.For, ast.While)):
                 for fld in ('body', 'orelse', 'finalbody'):
                     scan(getattr(st, fld, []))
@@ -102,14 +99,23 @@ def module_const(m: pf.Module, name: str) -> ast.expr:
             elif isinstance(st, (ast.Import, ast.ImportFrom)):
                 for a in st.names:
                     if (a.asname or a.name.split('.')[0]) == name:
-                        vals.append(st)  # type: ignore[arg-type]
+                        vals.append(st)
             elif isinstance(st, (ast.FunctionDef, ast.AsyncFunctionDef, ast.ClassDef)) and st.name == name:
-                vals.append(st)  # type: ignore[arg-type]
+                vals.append(st)
 
     scan(m.tree.body)
     for n in ast.walk(m.tree):
         if isinstance(n, ast.Global) and name in n.names:
             raise AnalysisError(f'{m.rel}: `global {name}` makes the module constant rebindable')
+    return vals
+
+
+def module_const(m: pf.Module, name: str) -> ast.expr:
+    """The unique module-level binding of `name` (no rebinding, no `global name`)."""
+    hit = _mc_cache.get((id(m), name))
+    if hit is not None:
+        return hit
+    vals = module_bindings(m, name)
     if len(vals) != 1 or not isinstance(vals[0], ast.expr):
         raise AnalysisError(f'{m.rel}: expected exactly one plain module-level binding of {name}, found {len(vals)}')
     _mc_cache[(id(m), name)] = vals[0]
@@ -390,6 +396,7 @@ class Translator:
         self.roots = package_roots if parent is None else parent.roots
         self.regex_uses: List[dict] = [] if parent is None else parent.regex_uses  # for diagnostics: every regex call translated
         self.idioms: List[str] = [] if parent is None else parent.idioms
+        self.display: Dict[str, str] = {} if parent is None else parent.display  # internal variable -> the source text it stands for
         self.env: Dict[str, tuple] = {}
 
     # ---- helpers
@@ -401,8 +408,19 @@ class Translator:
             return ent is not None and ent[0] == 'alias' and not ent[1]
         return False
 
+    def _text(self, e: ast.AST) -> str:
+        t = pf.nsrc(e)
+        for k in sorted(self.display, key=len, reverse=True):
+            t = t.replace(k, self.display[k])
+        return t
+
     def _fail(self, e: ast.AST, what: str = 'string-predicate idiom'):
-        raise AnalysisError(f'{self.m.rel}: unrecognised {what} `{pf.nsrc(e)[:100]}` (line {getattr(e, "lineno", "?")})')
+        raise AnalysisError(f'{self.m.rel}: unrecognised {what} `{self._text(e)[:100]}` (line {getattr(e, "lineno", "?")})')
+
+    def chain_of(self, e: ast.AST) -> Optional[tuple]:
+        """() when e is the parameter itself, a non-empty tuple of transforms when e is a normalised copy of it
+        (s.strip().lower(), s[1:], ...), None when e is something else."""
+        return self._chain(e)
 
     def _lits(self, e: ast.AST) -> List[str]:
         """A string literal or a tuple/list/set of them."""
@@ -847,6 +865,7 @@ class Translator:
                 class Sub(ast.NodeTransformer):
                     def visit(self, node):  # noqa: N802
                         if isinstance(node, ast.expr) and outer._chain(node) == prefix:
+                            outer.display.setdefault(fresh, outer._text(node))
                             return ast.copy_location(ast.Name(id=fresh, ctx=ast.Load()), node)
                         return self.generic_visit(node)
 
@@ -893,6 +912,7 @@ class Translator:
         class Sub(ast.NodeTransformer):
             def visit_Subscript(self, node):  # noqa: N802
                 if outer._is_param(node.value) and _int_const(node.slice) == k:
+                    outer.display.setdefault(fresh, outer._text(node))
                     return ast.copy_location(ast.Name(id=fresh, ctx=ast.Load()), node)
                 return self.generic_visit(node)
 
@@ -989,6 +1009,19 @@ class Translator:
                         self._note("s in ('a', 'b')")
                         L = R.lang(self._any_of(lits), f'one of {lits!r}')
                         return _total(L if isinstance(op, ast.In) else ~L)
+                    # `s in 'literal'`: substring test
+                    w = const_string(self.m, self.fn, right)
+                    if len(w) > 128:
+                        raise AnalysisError(f'{self.m.rel}: substring test against a long literal `{pf.nsrc(e)[:60]}`')
+                    alts = [R.EPS]
+                    for i in range(len(w)):
+                        r: R.Re = R.EPS
+                        for j in range(len(w) - 1, i, -1):
+                            r = R.opt(R.seq(R.lit(w[j]), r))
+                        alts.append(R.seq(R.lit(w[i]), r))
+                    self._note("s in 'literal'")
+                    L = R.lang(R.alt(*alts), f'substring of {w!r}')
+                    return _total(L if isinstance(op, ast.In) else ~L)
             if isinstance(op, (ast.Eq, ast.NotEq)) and (self._is_param(left) or self._is_param(right)):
                 other = right if self._is_param(left) else left
                 ch = self._chain(other)
@@ -1033,12 +1066,32 @@ class Translator:
             hit = cs if isinstance(e.op, ast.BitAnd) else ~cs
             self._note('set(s) - set(ALLOWED)')
             return _total(R.lang(R.seq(R.star(anyc), R.chars(hit), R.star(anyc)), f'some char in {hit.describe(4)}'))
+        if isinstance(e, ast.Compare) and len(e.ops) == 1 and isinstance(e.ops[0], (ast.In, ast.NotIn)) and not self._is_param(e.comparators[0]):
+            ps = self.parts_spec(e.comparators[0])
+            if ps is not None and not ps[0]:
+                w = const_string(self.m, self.fn, e.left)
+                hit = R.lang(R.lit(w), f'== {w!r}')
+                allpass, hitl = self.iterate('parts', ~hit, hit, ps[1], ps[2])
+                self._note("'lit' in <parts of s>")
+                return (hitl, allpass) if isinstance(e.ops[0], ast.In) else (allpass, hitl)
         if isinstance(e, ast.Call):
             L = self._regex(e)
             if L is not None:
                 return _total(L)
             f = e.func
             name = pf.dotted(f)
+            if name in ('all', 'any') and len(e.args) == 1 and not e.keywords and not isinstance(e.args[0], (ast.GeneratorExp, ast.ListComp)):
+                ps = self.parts_spec(e.args[0])
+                if ps is not None and not ps[0]:
+                    nonempty = R.lang(R.plus(anyc), 'non-empty')
+                    if name == 'all':
+                        allpass, hitl = self.iterate('parts', nonempty, ~nonempty, ps[1], ps[2])
+                        return allpass, hitl
+                    allpass, hitl = self.iterate('parts', ~nonempty, nonempty, ps[1], ps[2])
+                    return hitl, allpass
+            helper = self._helper(e)
+            if helper is not None:
+                return helper
             if name == 'bool' and len(e.args) == 1 and not e.keywords:
                 return self.cond2(e.args[0])
             if name == 'len' and len(e.args) == 1 and self._is_param(e.args[0]):
@@ -1106,14 +1159,54 @@ class Translator:
         self._fail(e)
         raise AssertionError
 
+    _helper_depth = [0]
+
+    def helper_function(self, e: ast.AST) -> Optional[pf.FuncDef]:
+        """e is `f(<the parameter>)` for a plain module-level function f of this module with one parameter -> f"""
+        if not (isinstance(e, ast.Call) and isinstance(e.func, ast.Name) and len(e.args) == 1 and not e.keywords and self._is_param(e.args[0])):
+            return None
+        name = e.func.id
+        if _is_local(self.fn, name) or name in imports_of(self.m) or not self.m.has_func(name):
+            return None
+        h = self.m.func(name)
+        a = h.args
+        if not isinstance(h, ast.FunctionDef) or h.decorator_list or len(a.args) + len(a.posonlyargs) != 1 or a.vararg or a.kwarg or a.kwonlyargs:
+            raise AnalysisError(f'{self.m.rel}: helper `{name}` has a shape that is not recognised')
+        b = module_bindings(self.m, name)
+        if len(b) != 1 or b[0] is not h:
+            raise AnalysisError(f'{self.m.rel}: `{name}` has more than one module-level binding')
+        return h
+
+    def helper_languages(self, h: pf.FuncDef) -> Pair:
+        """(argument strings for which the helper returns a truthy value, ... returns a falsy value); it raises on the rest."""
+        if Translator._helper_depth[0] >= 3:
+            raise AnalysisError(f'{self.m.rel}: helper calls nested too deeply at `{h.name}`')
+        Translator._helper_depth[0] += 1
+        try:
+            hp = (h.args.posonlyargs + h.args.args)[0].arg
+            T, tr1 = function_language(self.m, h, hp, 'bool', self.roots)
+            NR, _tr2 = function_language(self.m, h, hp, 'no-raise', self.roots)
+        finally:
+            Translator._helper_depth[0] -= 1
+        for u in tr1.regex_uses:
+            self.regex_uses.append(u)
+        for i in tr1.idioms:
+            self._note(i)
+        self._note(f'helper {h.name}()')
+        return T, NR & ~T
+
+    def _helper(self, e: ast.AST) -> Optional[Pair]:
+        h = self.helper_function(e)
+        return None if h is None else self.helper_languages(h)
+
     def _regex(self, call: ast.Call) -> Optional[R.Lang]:
         rc = regex_call(self.m, self.fn, call, self.roots)
         if rc is None:
             return None
         rd, mode, subject = rc
         if not self._is_param(subject):
-            raise AnalysisError(f'{self.m.rel}: regex `{pf.nsrc(call)}` is applied to `{pf.nsrc(subject)}`, not to the parameter {self.param}')
-        self.regex_uses.append({'call': pf.nsrc(call), 'mode': mode, 'pattern': rd.pattern, 'flags': rd.flags, 'defined': rd.where,
+            raise AnalysisError(f'{self.m.rel}: regex `{self._text(call)}` is applied to `{self._text(subject)}`, not to the parameter {self.param}')
+        self.regex_uses.append({'call': self._text(call), 'mode': mode, 'pattern': rd.pattern, 'flags': rd.flags, 'defined': rd.where,
                                 'line': getattr(call, 'lineno', 0)})
         self._note(f'regex.{mode}')
         return R.from_regex(rd.pattern, rd.flags, mode)
@@ -1218,6 +1311,13 @@ def function_language(m: pf.Module, fn: pf.FuncDef, param: str, accept: str, pac
                 A, C = run(t, rest, {**env, tgt.id: ('bool', T, F)}, in_loop)
                 ok = T | F
                 return ok & A, ok & C
+        if isinstance(st, ast.Expr) and isinstance(st.value, ast.Call) and isinstance(st.value.func, ast.Name) \
+                and m.has_func(st.value.func.id) and not _is_local(fn, st.value.func.id):
+            # a checking helper called for its exception: the statement passes where the call returns anything
+            Th, Fh = t.cond2(st.value)
+            ok = Th | Fh
+            A, C = run(t, rest, env, in_loop)
+            return ok & A, ok & C
         if isinstance(st, ast.For) and isinstance(st.target, ast.Name):
             spec = t.iter_spec(st.iter)
             if spec is None:
